@@ -121,7 +121,7 @@ def run(ctx, rep):
         kw.update(forced)
         cfg = {k: v for k, v in kw.items() if k not in ("random_state",)}
         cfg.update(kind=kind, K=K, seed=seed, objective=obj.kind)
-        steps, calls = [], []
+        steps, calls, my_prev = [], [], []
         try:
             with L.log_mode():
                 if gp:
@@ -144,19 +144,31 @@ def run(ctx, rep):
                     fit = [float(v) for v in opt._fitness_i]
                     prev = [float(v) for v in getattr(opt, "_previous_fitness_i", [])]
                     orig()
-                    steps.append(dict(pre=pre, post=state(), fit=fit, prev=prev, draws=list(MR.TAPE.log[start:])))
+                    # prev_indep: the parent fitness values THIS optimizer recorded while creating the current population
+                    steps.append(dict(pre=pre, post=state(), fit=fit, prev=prev, prev_indep=list(my_prev), draws=list(MR.TAPE.log[start:])))
+                    del my_prev[:]
                 opt._adapt = adapt
                 orig_new = opt._get_new_individ_g
 
                 def new(sn, cn, mn, orig=orig_new, opt=opt):
                     calls.append((len(steps), str(sn), str(cn), str(mn)))
-                    return orig(sn, cn, mn)
+                    out = orig(sn, cn, mn)
+                    if kind.startswith("PDP") and len(getattr(opt, "_previous_fitness_i", [])):
+                        my_prev.append(float(opt._previous_fitness_i[-1]))
+                    return out
                 opt._get_new_individ_g = new
                 opt.fit()
         except ZeroDivisionError as e:
             rep.count("constructor", (kind, cxs, seed))
             rep.problem("constructor", f"{kind}(crossovers={kw['crossovers']}) raises ZeroDivisionError: a single 'empty' crossover is an admissible operator subset",
                         cfg, "selfc-ctor:single-empty-crossover", True, str(e), None, "C14_distribution")
+            continue
+        except Exception as e:   # noqa: BLE001
+            import traceback
+            rep.count("run-raised", (kind, seed))
+            rep.problem("rule", f"{kind}: the run of an admissible configuration raised {type(e).__name__}: {e} after {len(steps)} adaptation steps "
+                        f"(run number {rep.traces + 1} of this process; earlier runs of other instances may have left state behind)", cfg,
+                        "run-raised", True, traceback.format_exc()[-800:], None, "C14_pdp_rule")
             continue
         rep.traces += 1
         rep.hist("kind", kind), rep.hist("z", (len(names[0]), len(names[1]), len(names[2])))
@@ -187,10 +199,14 @@ def run(ctx, rep):
                 exp = [expected_selfc(p0[t], lab0[t], st["fit"], K, iters, thrs[t])[0] for t in range(3)]
                 changed = True
             else:
-                if not st["prev"]:
+                if st["prev"] != st["prev_indep"]:
+                    rep.problem("rule", f"{kind}: the parent-fitness buffer used for the success flags holds {len(st['prev'])} values, but this optimizer recorded "
+                                f"{len(st['prev_indep'])} while creating the current population (state of another instance / an earlier run leaks in)",
+                                dict(where, buffer=st["prev"][:12], recorded=st["prev_indep"][:12]), "pdp:foreign-parent-fitness", True, st["prev"][:12], st["prev_indep"][:12], "C14_pdp_rule")
+                if not st["prev_indep"]:
                     exp, changed = p0, False
                 else:
-                    succ = [a < b for a, b in zip(st["prev"], st["fit"])]
+                    succ = [a < b for a, b in zip(st["prev_indep"], st["fit"])]
                     exp = [expected_pdp(len(names[t]), lab0[t], succ, thrs[t]) for t in range(3)]
                     changed = True
             for t in range(3):
